@@ -32,8 +32,8 @@ RULE = ("per run one valid BF3/BEC2/BF2 file and ~10 damage sets of 1-4 storage 
         "non-trivial = at least one damaged text differed from the original; distinct = distinct event-log digests")
 REAL = ["bec2format.bf3file (BF3 reader, BF2 importer, filter formatter)", "bec2format.bec2file (BEC2 reader, auth "
         "blocks, encryptors)", "bec2format.configid", "register_crypto_plugin + pyaes + ecdsa"]
-STUBS = ["medium: SimFS with at-rest damage", "RNG: SimRng", "BF2 texts: grammar generator sim/bf2gen.py"]
-PROBES = ["parsed-ok-after-damage", "format-error", "value-error", "unicode-error", "bec2-empty-block-value",
+STUBS = ["peer: stub decryptors (the ext_encryptors seam) returning payloads of unexpected size", "medium: SimFS with at-rest damage", "RNG: SimRng", "BF2 texts: grammar generator sim/bf2gen.py"]
+PROBES = ["peer-decryptor-odd-payload", "parsed-ok-after-damage", "format-error", "value-error", "unicode-error", "bec2-empty-block-value",
           "bf2-damaged", "configid-downstream", "filter-downstream", "line-fault", "public-only-decryptor",
           "wrong-key-decryptor", "payload-len-zero"]
 ASSUMPTIONS = ["OSError is never injected here (the medium is damaged at rest, reads succeed)"]
@@ -95,6 +95,12 @@ def gen(st, tier):
     spec["damage"] = [_damage_set(f) for _ in range(10)]
     spec["modes"] = [[f.choice(["none", "public", "private", "wrong", "private"]), f.random() < 0.7,
                       f.choice(["path", "stream"])] for _ in range(len(spec["damage"]))]
+    if kind == "bec2":
+        # faulty peer: a pluggable decryptor (the seam for hardware crypto units) that hands back a payload
+        # of unexpected size for an otherwise valid file
+        spec["damage"].append([])
+        spec["modes"].append(["peer", True, "path"])
+        spec["peer"] = [f.choice([0, 1, 2, 15, 16, 17, 25, 26, 27, 40]) for _ in range(3)]
     return spec
 
 
@@ -277,10 +283,38 @@ def guarded(out, what, fn, text_len, narrow, detail_ctx):
         return "bad", type(e).__name__
 
 
+def _peer_stubs(case, bf):
+    lens = case.get("peer") or [0, 16, 26]
+
+    def payload(n, salt):
+        return bytes((salt * 31 + i * 7) & 0xFF for i in range(n))
+    out = []
+    for i, b in enumerate(case["blocks"]):
+        n = lens[i % len(lens)]
+        if b["t"] == "cust":
+            class StubCust(bf.CustKeyEncryptor):
+                def decrypt(self, ciphertext, n=n, i=i):
+                    return payload(n, i)
+            out.append(StubCust())
+        elif b["t"] == "upd":
+            class StubCode(bf.ConfigSecurityCodeEncryptor):
+                def decrypt(self, ciphertext, n=n, i=i):
+                    return payload(n, i)
+            out.append(StubCode(bytes.fromhex(b["code"])))
+        else:
+            class StubEcc(bf.EccEncryptor):
+                def decrypt(self, ciphertext, n=n, i=i):
+                    return payload(n, i)
+            out.append(StubEcc(b["sel"]))
+    return out
+
+
 def _decryptors(mode, case, w, fs):
     bf = env.bec2file
     if mode == "none":
         return []
+    if mode == "peer":
+        return _peer_stubs(case, bf)
     if mode == "private":
         return list(w.decryptors.values())
     out = []
@@ -350,6 +384,9 @@ def run(case):
                     out.probes["public-only-decryptor"] += 1
                 if mode == "wrong":
                     out.probes["wrong-key-decryptor"] += 1
+                if mode == "peer":
+                    out.probes["peer-decryptor-odd-payload"] += 1
+                    out.fired["peer-payload-size"] += 1
 
             def parse():
                 if kind == "bf2":
